@@ -1,9 +1,9 @@
 CONSTANTS
   MaxFrames = 14
-  Dev_PruneWithoutReap = TRUE
+  Dev_PruneWithoutReap = FALSE
   Dev_AfterSpawnKillDetached = TRUE
   Dev_BuiltinIgnoreList = TRUE
-  Dev_AddEmptyNameReturns = TRUE
+  Dev_AddEmptyNameReturns = FALSE
   Configs <- mc_Configs
   Requests <- mc_Requests
   MaxReq = 1
